@@ -47,8 +47,14 @@ quick   : 7 file sets (1-4 files x 3-6 HDUs; empty or image primary, a binary ta
           in all files, every per-file list if <= 40 else 40 seeded random ones; WCS key: none,
           ' ', every common scalar, 3 seeded per-file lists; routes load + cli_view for all,
           cli_multi_tan for scalars; tile_fits for <= 12 selections per TAN-grid set.
+          + 7 sets whose input list names THE SAME PATH more than once (order [0,0], [0,0,1], [0,1,0],
+          [1,0,0], [0,1,0,1], [0,0,0]; one with free WCS): "a list supplies the index or key for
+          the file at the same list position" -- position, not path; every per-position HDU list,
+          <= 8 per-position key lists, all routes (witness key ``path_order``).  In these sets the
+          HDUs / solutions of one file are placed apart (CRPIX2 = 5 + 12*hdu + 70*key) so that two
+          extensions of one file never overlap in the tiles.
 thorough: 27 file sets incl. 20 seeded random layouts, lists up to 400 per set, 8 key lists,
-          tile_fits for <= 60 selections per set.
+          tile_fits for <= 60 selections per set; 7 + 8 seeded random repeated-path sets.
 Trusted: astropy.io.fits writer/reader and astropy.wcs used to write the files and to read
 the tiles back; values are float32-exact by construction.
 Not covered: RubinDirectoryCollection; HDU selection by EXTNAME; cubes (NAXIS>2); the TOAST
